@@ -14,8 +14,9 @@ every number and position of lifecycle callbacks around the binds and closes (= 
 interleaving of the asynchronous listener closes with the remaining callbacks and with client steps.
 Since a prefix of a run is a run (`run_prefix`), "for every reachable state" is "at every lifecycle step".
 
-Clauses the unchanged tree violates are stated in full in `Witness.lean`, refuted there by a concrete
-run, and proved here in their `_partial` form under an explicit decidable exclusion.
+Two clauses used to fail (a dropped unix socket was not closed; a config rejected after start could keep
+answering): the code was repaired, the theorems hold at full strength, and `Witness.lean` shows on the
+machine with the old effects that they are not vacuous (`…_old_code_fails`).
 -/
 import CaddyModel.C02.Lemmas
 import CaddyModel.C02.Reload
@@ -67,11 +68,13 @@ theorem pool_counts_holders {s : State} (h : Reach s) (a : Addr) :
 
 /-! ### who answers -/
 
-/-- **served_by_old_or_new (partial).**  Whoever answers a connection is the running config, the one
-    being started or the one being stopped — provided no rejected config was left half-started
-    (`zombies = []`; the full statement fails, `Witness.served_by_old_or_new_full_fails`). -/
-theorem served_by_old_or_new_partial {s : State} (h : Reach s) (hz : s.zombies = []) {a : Addr} {g : Gen}
+/-- **served_by_old_or_new.**  Whoever answers a connection is the running config, the one being started
+    or the one being stopped — in every reachable state. (Before the repair of `reuseUnixSocket` a config
+    rejected after start could be left half-started and answer for ever:
+    `Witness.served_by_old_or_new_old_code_fails`.) -/
+theorem served_by_old_or_new {s : State} (h : Reach s) {a : Addr} {g : Gen}
     (hg : g ∈ servers s a) : alive s g := by
+  have hz := h.noZombies
   obtain ⟨x, hx, rfl⟩ := List.mem_map.mp hg
   rcases h.inv.owner a x hx with ho | ho | ho | ho
   · exact Or.inl ho
@@ -99,9 +102,10 @@ theorem one_reload_alive_old_or_new {s0 s : State} {old new : Cfg} (hc : s0.cur 
 
 /-- **served_by_old_or_new**, client's view: a connection to an address the running config listens on
     is always answered (never refused, never missing, never hanging), and by a config that is alive. -/
-theorem connect_current_address_answered {s : State} (h : Reach s) (hz : s.zombies = []) {c : Cfg}
+theorem connect_current_address_answered {s : State} (h : Reach s) {c : Cfg}
     (hc : s.cur = some c) {a : Addr} (ha : a ∈ c.addrs) :
     connect s a ≠ [] ∧ ∀ o, o ∈ connect s a → ∃ g, o = .answered g ∧ alive s g := by
+  have hz := h.noZombies
   have hpos := (current_config_holds_its_addresses h hc ha).2
   have hne : (s.socks a).hs ≠ [] := fun e => by unfold State.holders at hpos; rw [e] at hpos; simp at hpos
   unfold connect
@@ -112,14 +116,15 @@ theorem connect_current_address_answered {s : State} (h : Reach s) (hz : s.zombi
     exact hne (by simpa [Sock.gens] using this)
   · intro o ho
     obtain ⟨g, hg, rfl⟩ := List.mem_map.mp ho
-    exact ⟨g, rfl, served_by_old_or_new_partial h hz hg⟩
+    exact ⟨g, rfl, served_by_old_or_new h hg⟩
 
 /-! ### after the drain -/
 
-/-- **after_drain_only_new (partial).**  Once the load has returned and the replaced config has
+/-- **after_drain_only_new.**  Once the load has returned and the replaced config has
     drained, the running config is the only one that answers on its addresses. -/
-theorem after_drain_only_new_partial {s : State} (h : Reach s) (hz : s.zombies = []) (hs : settled s)
+theorem after_drain_only_new {s : State} (h : Reach s) (hs : settled s)
     {c : Cfg} (hc : s.cur = some c) {a : Addr} (ha : a ∈ c.addrs) : servers s a = [c.gen] := by
+  have hz := h.noZombies
   have hi := h.inv
   have hn := hi.idleNext hs.1
   have hall : ∀ g, g ∈ servers s a → g = c.gen := by
@@ -145,8 +150,9 @@ theorem after_drain_only_new_partial {s : State} (h : Reach s) (hz : s.zombies =
 
 /-- **dropped: nobody answers.**  After the drain no listener is left on an address the running config
     does not listen on (in particular one the new config dropped). -/
-theorem dropped_address_has_no_listener {s : State} (h : Reach s) (hz : s.zombies = []) (hs : settled s)
+theorem dropped_address_has_no_listener {s : State} (h : Reach s) (hs : settled s)
     {a : Addr} (ha : ∀ c, s.cur = some c → a ∉ c.addrs) : servers s a = [] ∧ s.holders a = 0 := by
+  have hz := h.noZombies
   have hi := h.inv
   have hn := hi.idleNext hs.1
   have hnil : (s.socks a).hs = [] := by
@@ -164,69 +170,67 @@ theorem dropped_address_has_no_listener {s : State} (h : Reach s) (hz : s.zombie
       · rw [hz] at ho; cases ho
   simp [servers, Sock.gens, State.holders, hnil]
 
-/-- **dropped_address_closed (partial).**  A dropped tcp address refuses connections; a dropped unix
-    socket is refused too once the descriptors the code leaked have been collected (`leaks = 0`).
-    (Full statement — closed right after the drain, unix included — fails:
-    `Witness.dropped_address_closed_full_fails`.) -/
-theorem dropped_address_closed_partial {s : State} (h : Reach s) (hz : s.zombies = []) (hs : settled s)
-    {a : Addr} (ha : ∀ c, s.cur = some c → a ∉ c.addrs)
-    (hex : a.unix = false ∨ (s.socks a).leaks = 0) : closed s a := by
+/-- **dropped_address_closed.**  A dropped address is closed as soon as the replaced config has drained:
+    a tcp address refuses connections, a unix socket's file is gone. (Before the repair of
+    `unixListener.Close` the unix half failed: `Witness.dropped_address_closed_old_code_fails`.) -/
+theorem dropped_address_closed {s : State} (h : Reach s) (hs : settled s)
+    {a : Addr} (ha : ∀ c, s.cur = some c → a ∉ c.addrs) : closed s a := by
+  have hz := h.noZombies
   have hnil : (s.socks a).hs = [] := by
-    have := (dropped_address_has_no_listener h hz hs ha).2
+    have := (dropped_address_has_no_listener h hs ha).2
     exact List.eq_nil_of_length_eq_zero this
   unfold closed connect
   rw [if_neg (by simp [hnil])]
   cases hu : a.unix
   · left; simp
-  · simp only [Bool.not_true, Bool.false_eq_true, if_false]
-    cases hf : (s.socks a).file
-    · right; simp
-    · left
-      rcases hex with hex | hex
-      · rw [hu] at hex; cases hex
-      · simp [hex]
+  · right
+    simp [(h.clean a).fileGone hu hnil]
+
+/-- a connection never hangs on a socket nobody serves: no descriptor is leaked -/
+theorem connect_never_hangs {s : State} (h : Reach s) (a : Addr) : Conn.hangs ∉ connect s a := by
+  unfold connect
+  split
+  · simp
+  · split
+    · simp
+    · split
+      · simp
+      · simp [(h.clean a).noLeak]
 
 /-- the whole clause as a spec of one reload, for the drained state it ends in -/
-theorem reload_meets_spec_partial {s : State} (h : Reach s) (hz : s.zombies = []) (hs : settled s)
-    {new : Cfg} (hc : s.cur = some new) (hleak : ∀ a, a.unix = true → a ∉ new.addrs → (s.socks a).leaks = 0) :
-    reloadSpec new s := by
-  refine ⟨fun a ha => after_drain_only_new_partial h hz hs hc ha, fun a ha => ?_⟩
-  apply dropped_address_closed_partial h hz hs
-  · intro c hc'; rw [hc] at hc'; cases hc'; exact ha
-  · cases hu : a.unix
-    · exact Or.inl rfl
-    · exact Or.inr (hleak a hu ha)
+theorem reload_state_meets_spec {s : State} (h : Reach s) (hs : settled s)
+    {new : Cfg} (hc : s.cur = some new) : reloadSpec new s := by
+  have hz := h.noZombies
+  refine ⟨fun a ha => after_drain_only_new h hs hc ha, fun a ha => ?_⟩
+  apply dropped_address_closed h hs
+  intro c hc'; rw [hc] at hc'; cases hc'; exact ha
 
 /-! ### the unix socket file -/
 
-/-- **unix_unlink_only_at_zero.**  The only step that removes a socket file (the unlink before a fresh
-    bind) is enabled only when no listener is open on that socket. -/
+/-- **unix_unlink_only_at_zero.**  The unlink before a fresh bind is enabled only when no listener is
+    open on that socket … -/
 theorem unix_unlink_only_at_zero {s : State} (h : Reach s) {st : Step} {a : Addr}
     (hu : unlinks s st a) : s.holders a = 0 := by
   obtain ⟨_, hux, hm⟩ := hu
   have := ((h.inv.books a).umapNone hux).mp hm
   simp [State.holders, this]
 
+/-- … and in every reachable state the socket file exists exactly as long as a listener is open on the
+    socket: no close but the last one removes it, and the last one does. -/
+theorem unix_socket_file_iff_held {s : State} (h : Reach s) {a : Addr} (hu : a.unix = true) :
+    (s.socks a).file = true ↔ 1 ≤ s.holders a := by
+  constructor
+  · intro hf
+    cases hl : (s.socks a).hs with
+    | nil => rw [(h.clean a).fileGone hu hl] at hf; cases hf
+    | cons x r => simp [State.holders, hl]
+  · intro hh
+    exact (h.inv.books a).fileHeld hu (fun e => by unfold State.holders at hh; rw [e] at hh; simp at hh)
+
 /-- as long as a listener is open on a unix socket its file exists -/
 theorem held_unix_socket_has_file {s : State} (h : Reach s) {a : Addr} (hu : a.unix = true)
     (hh : 1 ≤ s.holders a) : (s.socks a).file = true :=
-  (h.inv.books a).fileHeld hu (fun e => by unfold State.holders at hh; rw [e] at hh; simp at hh)
-
-/-- (quirk, as the code is) no close ever removes the file -/
-theorem close_never_unlinks (s : State) (g : Gen) (a b : Addr) :
-    ((eff s (.close g a)).socks b).file = (s.socks b).file := by
-  simp only [eff]
-  by_cases hba : b = a
-  · subst hba
-    rw [setSock_same]
-    unfold closeSock
-    split
-    · rfl
-    · unfold closeUnix closeTcp
-      split
-      · split <;> rfl
-      · rfl
-  · rw [setSock_ne _ _ hba]
+  (unix_socket_file_iff_held h hu).mpr hh
 
 /-! ### in-flight requests -/
 
@@ -249,38 +253,16 @@ theorem accepted_by_a_holder {s : State} {t : Nat} {g : Gen} {a : Addr}
   obtain ⟨x, hx, hg⟩ := (Sock.holds_iff _ _).mp (by simpa [enabled, State.holds] using he)
   exact List.mem_map.mpr ⟨x, hx, hg⟩
 
-/-! ### when the exclusion `zombies = []` holds -/
-
-/-- **The exclusion is about rejected loads only.**  As long as no load has been rejected after its
-    HTTP app had started (`everRejected = false`: every load so far was accepted), no `unixSockets`
-    entry is ever stale, the failing `Listen` (`bindStale`) is never enabled and no config is left
-    half-started — so every `_partial` theorem above applies to every state of every history of
-    accepted reloads, whatever the schedule. -/
-theorem no_rejected_reload_no_zombies {s : State} (h : Reach s) (hr : s.everRejected = false) :
-    s.zombies = [] ∧ (∀ a, a.unix = true → (s.socks a).stale = false) ∧ (∀ a, enabled s (.bindStale a) = false) := by
-  have k := h.kinv hr
-  refine ⟨k.noZombies, fun a hu => k.not_stale hu, fun a => ?_⟩
-  cases hu : a.unix
-  · simp [enabled, hu]
-  · simp [enabled, k.not_stale hu]
-
-/-- served_by_old_or_new for histories without a rejected load, exclusion-free form -/
-theorem served_by_old_or_new_of_no_rejection {s : State} (h : Reach s) (hr : s.everRejected = false)
-    {c : Cfg} (hc : s.cur = some c) {a : Addr} (ha : a ∈ c.addrs) :
-    connect s a ≠ [] ∧ ∀ o, o ∈ connect s a → ∃ g, o = .answered g ∧ alive s g :=
-  connect_current_address_answered h (no_rejected_reload_no_zombies h hr).1 hc ha
-
 /-! ### the code's own reload, and sequences of them -/
 
 /-- **`reload old new π` is a run of the machine, for every config pair and every schedule**, and it
     ends settled with the new config running: the theorems above therefore speak about every prefix
     of the step list the code executes. -/
-theorem reload_is_a_run {s0 : State} (h0 : Reach s0) (hs : settled s0) (hr : s0.everRejected = false)
+theorem reload_is_a_run {s0 : State} (h0 : Reach s0) (hs : settled s0)
     (new : Cfg) (hf : s0.fresh ≤ new.gen) (hnd : new.addrs.Nodup) (π : Sched) :
-    ∃ s, run s0 (reloadSteps new s0.cur π) = some s ∧ Reach s ∧ settled s ∧ s.cur = some new ∧ s.zombies = [] := by
-  have k := h0.kinv hr
-  obtain ⟨s, h1, hr1, hp1, hd1, hc1, hz1⟩ := reloadSteps_run h0 hs.1 hs.2 new hf hnd (fun a _ hu => k.not_stale hu) π
-  exact ⟨s, h1, hr1, ⟨hp1, hd1⟩, hc1, hz1.trans k.noZombies⟩
+    ∃ s, run s0 (reloadSteps new s0.cur π) = some s ∧ Reach s ∧ settled s ∧ s.cur = some new := by
+  obtain ⟨s, h1, hr1, hp1, hd1, hc1, _⟩ := reloadSteps_run h0 hs.1 hs.2 new hf hnd π
+  exact ⟨s, h1, hr1, ⟨hp1, hd1⟩, hc1⟩
 
 /-- **retained_never_unbound, in the form of the design: ∀ prefix of (reload old new π), holders a ≥ 1**
     for every address both configs listen on — for all configs, all schedules π. -/
@@ -293,22 +275,19 @@ theorem reload_never_unbinds_retained {s0 : State} (h0 : Reach s0) (hs : settled
   exact retained_never_unbound h0 hq pre hk h1
 
 /-- **the reload meets its spec**: after `reload old new π` (any π) exactly the new config answers on
-    its addresses and nothing listens on any other address. -/
-theorem reload_meets_spec {s0 : State} (h0 : Reach s0) (hs : settled s0) (hr : s0.everRejected = false)
+    its addresses and every other address is closed. -/
+theorem reload_meets_spec {s0 : State} (h0 : Reach s0) (hs : settled s0)
     (new : Cfg) (hf : s0.fresh ≤ new.gen) (hnd : new.addrs.Nodup) (π : Sched) :
-    ∃ s, run s0 (reloadSteps new s0.cur π) = some s ∧
-      (∀ a, a ∈ new.addrs → servers s a = [new.gen]) ∧ (∀ a, a ∉ new.addrs → servers s a = []) := by
-  obtain ⟨s, h1, hr1, hs1, hc1, hz1⟩ := reload_is_a_run h0 hs hr new hf hnd π
-  refine ⟨s, h1, fun a ha => after_drain_only_new_partial hr1 hz1 hs1 hc1 ha, fun a ha => ?_⟩
-  exact (dropped_address_has_no_listener hr1 hz1 hs1 (fun c hc => by rw [hc1] at hc; cases hc; exact ha)).1
+    ∃ s, run s0 (reloadSteps new s0.cur π) = some s ∧ reloadSpec new s := by
+  obtain ⟨s, h1, hr1, hs1, hc1⟩ := reload_is_a_run h0 hs new hf hnd π
+  exact ⟨s, h1, reload_state_meets_spec hr1 hs1 hc1⟩
 
 /-- **every sequence of reloads** (any configs with increasing generations and duplicate-free address
-    lists, any schedule for each reload) is a run from the initial state, ends settled and never leaves
-    a half-started config behind. -/
+    lists, any schedule for each reload) is a run from the initial state and ends settled. -/
 theorem reload_sequence_is_a_run (cfgs : List (Cfg × Sched)) (hok : okSeq 0 cfgs) :
-    ∃ s, run init (reloadSeq none cfgs) = some s ∧ Reach s ∧ settled s ∧ s.zombies = [] := by
-  obtain ⟨s, h1, hr, hp, hd, _, hz⟩ := reloadSeq_run cfgs (s0 := init) Reach.init rfl rfl rfl hok
-  exact ⟨s, h1, hr, ⟨hp, hd⟩, hz⟩
+    ∃ s, run init (reloadSeq none cfgs) = some s ∧ Reach s ∧ settled s := by
+  obtain ⟨s, h1, hr, hp, hd⟩ := reloadSeq_run cfgs (s0 := init) Reach.init rfl rfl hok
+  exact ⟨s, h1, hr, ⟨hp, hd⟩⟩
 
 /-! ### the order matters -/
 
@@ -342,12 +321,12 @@ def exHistory : List Step :=
   reloadSteps exOld none (.mk 2 0 1 0 0 0) ++ reloadSteps exNew (some exOld) exSched
 
 -- it is a run, it ends settled with the new config running and no zombies: the hypotheses of
--- `after_drain_only_new_partial`, `dropped_address_has_no_listener`, `reload_meets_spec_partial`
+-- `after_drain_only_new`, `dropped_address_has_no_listener`, `reload_state_meets_spec`
 example : ((run init exHistory).map fun s => (s.phase, s.drained, s.zombies)) = some (.idle, true, []) := by decide
 example : ((run init exHistory).map fun s => (genOf s.cur, servers s exT0, servers s exU0)) = some (some 1, [1], [1]) := by decide
 
 -- in the middle of the second reload (after the binds, before the swap) both configs answer:
--- the hypotheses of `served_by_old_or_new_partial` / `connect_current_address_answered` with two alive configs
+-- the hypotheses of `served_by_old_or_new` / `connect_current_address_answered` with two alive configs
 example : ((run init (reloadSteps exOld none (.mk 2 0 1 0 0 0) ++ [.begin exNew, .cb .provision 1, .bind exU0, .bind exT0])).map
     fun s => (connect s exT0, connect s exU0, (s.socks exT0).pool, (s.socks exU0).pool, (s.socks exU0).ucnt))
     = some ([.answered 0, .answered 1], [.answered 0, .answered 1], 2, 1, 2) := by decide
@@ -365,8 +344,8 @@ example : ((run init (reloadSteps exOld none (.mk 2 0 1 0 0 0) ++
 -- a rejected reload: the old config keeps answering, alone again after the rejected one is closed
 example : ((run init (reloadSteps exOld none (.mk 2 0 1 0 0 0) ++
       [.begin exNew, .bind exT0, .bind exU0, .cb .started 1, .reject, .cb .stopping 1, .close 1 exT0, .close 1 exU0, .ret])).map
-    fun s => (genOf s.cur, servers s exT0, servers s exU0, s.everRejected))
-    = some (some 0, [0], [0], true) := by decide
+    fun s => (genOf s.cur, servers s exT0, servers s exU0))
+    = some (some 0, [0], [0]) := by decide
 
 -- in-flight: accepted by the old config before the reload, completed by it after the old listeners closed
 example : ((run init (reloadSteps exOld none (.mk 2 0 1 0 0 0) ++ [.accept 7 0 exT0] ++
@@ -377,8 +356,8 @@ example : (run init (reloadSteps exOld none (.mk 2 0 1 0 0 0) ++ [.accept 7 0 ex
       reloadSteps exNew (some exOld) exSched ++ [.complete 7 1])).isNone = true := by decide
 
 -- hypotheses of `reload_is_a_run` / `reload_meets_spec` / `reload_never_unbinds_retained`: a reachable
--- settled state with a running config, no rejected load so far, a fresh generation for the next config
-example : ((run init exHistory).map fun s => (s.everRejected, s.fresh, genOf s.cur)) = some (false, 2, some 1) := by decide
+-- settled state with a running config, a fresh generation for the next config
+example : ((run init exHistory).map fun s => (s.fresh, genOf s.cur)) = some (2, some 1) := by decide
 -- a strict prefix of the second reload: after both binds, before the swap, holders = 2 on both addresses
 example : ((run init (reloadSteps exOld none (.mk 2 0 1 0 0 0) ++ (reloadSteps exNew (some exOld) exSched).take 7)).map
     fun s => (s.holders exT0, s.holders exU0, genOf s.cur)) = some (2, 2, some 0) := by decide
@@ -387,7 +366,7 @@ example : ((run init (reloadSteps exOld none (.mk 2 0 1 0 0 0) ++ (reloadSteps e
 example : okSeq 0 [(exOld, exSched), (exNew, exSched), (⟨5, [exT0]⟩, exSched)] := by
   simp [okSeq, exOld, exNew, exT0, exU0]
 example : ((run init (reloadSeq none [(exOld, exSched), (exNew, exSched), (⟨5, [exT0]⟩, exSched)])).map
-    fun s => (servers s exT0, servers s exU0, connect s exU0)) = some ([5], [], [.hangs]) := by decide
+    fun s => (servers s exT0, servers s exU0, connect s exU0)) = some ([5], [], [.noent]) := by decide
 
 -- `unlinks`: the fresh bind of a unix socket is the unlinking step, and nobody holds it then
 example : unlinks init (.bind exU0) exU0 := ⟨rfl, rfl, rfl⟩
